@@ -125,6 +125,9 @@ def check_case(case, ctx):
                                trailing=case["trailing"])
         detectable = case["marker"] or (case["size_ok"] and not case["trailing"])
         fh = io.BytesIO(enc)
+        if case.get("fhpos") is not None:
+            # the file object has been used before (hashed, scanned, decoded once): detection must not depend on its position
+            fh.seek(min(case["fhpos"], len(enc)) if case["fhpos"] >= 0 else len(enc))
         try:
             # maxrange bounds the search for the nonce offset only ("how far into the file ... nonce_offset candidates"):
             # any value that covers the stub must give the same result as the default, whatever the image's e_lfanew is
@@ -321,7 +324,8 @@ def run_shard(shard, ctx):
                 stub = bytes(b)
             check_case({"op": "detect", "plain": plain, "nonce": rng.randbytes(4), "stub": stub, "marker": marker,
                         "size_ok": size_ok, "trailing": trailing, "prepend": prepend,
-                        "maxrange": rng.choice([0, 0, 1, 8, 100, 2000]) if (marker or (size_ok and not trailing)) else 0}, ctx)
+                        "maxrange": rng.choice([0, 0, 1, 8, 100, 2000]) if (marker or (size_ok and not trailing)) else 0,
+                        "fhpos": rng.choice([None, None, -1, 1, len(stub) + 3, len(stub) + 11, rng.randrange(0, 5000)])}, ctx)
     elif kind == "plain":
         for off in (0, 1, 5, 33):
             for ln in range(0, off + 9):
